@@ -445,6 +445,7 @@ class App:
 
         body: Iterable[bytes] = []
         length: Optional[int] = 0
+        had_content_type = 'content-type' in resp._headers
 
         try:
             body, length = self._get_body(resp, env.get('wsgi.file_wrapper'))
@@ -471,6 +472,10 @@ class App:
             # enforced.
             if status_code in _TYPELESS_STATUS_CODES:
                 default_media_type = None
+                if not had_content_type:
+                    # NOTE: Rendering resp.media fills in the default media
+                    #   type as a side effect.
+                    resp._headers.pop('content-type', None)
             elif (
                 length is not None
                 and req.method == 'HEAD'
